@@ -146,6 +146,9 @@ def _numeric_extras(x):
             NUMERIC_EXTRAS[0] += 1
 
 
+DUPLICATED = [0]
+
+
 def _add_override(rng, a, o, idx_map):
     """give `o` one term per possible kind that lands exactly on an existing term of `a` (forwards or backwards)."""
     inv = {v: k for k, v in idx_map.items()}
@@ -158,7 +161,17 @@ def _add_override(rng, a, o, idx_map):
         cands = [t for t in arr if all(int(i) in inv for i in t)]
         if not cands:
             continue
-        t = [inv[int(i)] for i in cands[int(rng.integers(len(cands)))]]
+        chosen = cands[int(rng.integers(len(cands)))]
+        if rng.integers(2) == 0:
+            # the structure holds a second term over exactly these atoms, listed the same way, of another (or the same) type - a
+            # torsion written as a sum of two terms, a bond listed twice by the file it came from: the fragment's term supersedes both
+            atypes = np.asarray(getattr(a, "%s_types" % kind))
+            setattr(a, atomsgen.ARR[kind], np.append(arr, [[int(i) for i in chosen]], axis=0))
+            setattr(a, "%s_types" % kind, np.append(atypes, atypes[int(rng.integers(len(atypes)))]))
+            axf = getattr(a, "extra_%s_fields" % kind)
+            setattr(a, "extra_%s_fields" % kind, np.append(axf, [["dup%s" % kind[0]] * axf.shape[1]], axis=0))
+            DUPLICATED[0] += 1
+        t = [inv[int(i)] for i in chosen]
         rev = bool(rng.integers(2))
         if rev:
             t = t[::-1]
@@ -362,7 +375,10 @@ def run_case(case, ctx):
                 st.count("fragment_terms_next_to_an_existing_term_with_an_end_atom_16_or_32_places_away")
         ov = []
         if case.get("override") and idx_map and not case.get("near_override"):
+            nd = DUPLICATED[0]
             ov = _add_override(rng, a, o, idx_map)
+            if DUPLICATED[0] > nd:
+                st.count("fragment_terms_landing_on_atoms_that_carry_two_terms_of_the_kind", DUPLICATED[0] - nd)
             for kind, d in ov:
                 st.seen("override", "%s:%s" % (kind, d))
         run_one(rng, a, o, idx_map, case["mode"], ctx, st)
@@ -387,6 +403,8 @@ def requirements(stats, tier):
         need.append("large structures extended by a fragment with int8/uint8/int16 atom types: %d" % stats.get("large_extensions_by_a_fragment_with_narrow_integer_atom_types"))
     if stats.get("extensions_of_structures_with_more_than_1e5_atoms") < (6 if tier == "quick" else 60) or stats.nseen("large_size_class") < 3:
         need.append("structures with more than 1e5 atoms: %d extensions" % stats.get("extensions_of_structures_with_more_than_1e5_atoms"))
+    if stats.get("fragment_terms_landing_on_atoms_that_carry_two_terms_of_the_kind") < (20 if tier == "quick" else 2000):
+        need.append("fragment terms landing on atoms that carry two terms of the kind: %d" % stats.get("fragment_terms_landing_on_atoms_that_carry_two_terms_of_the_kind"))
     if stats.get("terms_superseded_beyond_row_2048") < (2 if tier == "quick" else 20):
         need.append("terms superseded beyond row 2048 of a term list: %d" % stats.get("terms_superseded_beyond_row_2048"))
     ov = stats.sets.get("override", set())
